@@ -312,6 +312,11 @@ func NewFuture[T any]() *Future[T] {
 //
 // Panics if f has already been filled.
 func (f *Future[T]) Fill(x T) {
+	select {
+	case <-f.c:
+		panic("xsync: Fill of a Future that has already been filled")
+	default:
+	}
 	f.x = x
 	close(f.c)
 }
